@@ -34,10 +34,10 @@ def findActiveSubaps(subaps, mask, threshold, returnFill=False):
                     int(numpy.round(y*ySpacing)): int(numpy.round((y+1)*ySpacing))
                     ]
 
-            if subap.mean() >= threshold:
+            if subap.mean(dtype=numpy.float64) >= threshold:
                 subapCoords.append( [x*xSpacing, y*ySpacing])
                 if returnFill:
-                    fills.append(subap.mean())
+                    fills.append(subap.mean(dtype=numpy.float64))
 
     subapCoords = numpy.array( subapCoords )
 
@@ -67,7 +67,7 @@ def computeFillFactor(mask, subapPos, subapSpacing):
         x2 = int(round(x + subapSpacing))
         y1 = int(round(y))
         y2 = int(round(y + subapSpacing))
-        fills[i] = mask[x1:x2, y1:y2].mean()
+        fills[i] = mask[x1:x2, y1:y2].mean(dtype=numpy.float64)
 
     return fills
 
